@@ -82,7 +82,7 @@ class C13(core.Check):
         inds = indlib.indicators()
         r = self.rng
         n = 300
-        kinds = ['walk', 'gappy', 'stall'] if not (self.thorough or boost) else ['walk', 'spike', 'stall', 'gappy', 'trend', 'flat', 'lattice', 'alt', 'down']
+        kinds = ['walk', 'gappy', 'stall', 'session'] if not (self.thorough or boost) else ['walk', 'spike', 'stall', 'gappy', 'session', 'trend', 'flat', 'lattice', 'alt', 'down']
         series = {k: indlib.candles(r, n, k) for k in kinds}
         ks = list(PREFIXES_QUICK)
         if self.thorough or boost:
